@@ -67,6 +67,10 @@ def gen_cases(tier, seed):
     n = 40 if tier == "quick" else 2400
     for i in range(n):
         yield {"kind": "fit", "seed": r.randrange(1 << 30), "order": i % 4, "weights": ["sparse", "dense", "sparse-with-first", "single", "decades"][(i // 4) % 5], "kernel": "shipped" if i % 5 else "user", "entry": ["raw", "isotherm"][i % 2]}
+    # kernels with as few pore widths as the spline order (or fewer)
+    for rep in range(1 if tier == "quick" else 12):
+        for nwk, order in ((2, 0), (2, 1), (2, 2), (2, 3), (3, 2), (3, 3), (4, 3)):
+            yield {"kind": "fit", "seed": r.randrange(1 << 30), "order": order, "weights": "dense", "kernel": "user", "entry": ["raw", "isotherm"][(nwk + order + rep) % 2], "nw": nwk}
     for i in range(18 if tier == "quick" else 300):
         yield {"kind": "limits", "seed": r.randrange(1 << 30), "narrow": [None, 1, None, 2, None, 3][i % 6]}
     for i in range(24 if tier == "quick" else 400):
@@ -108,9 +112,9 @@ def load_kernel(path):
     return k
 
 
-def user_kernel(r, tag, directory=None, name=None):
+def user_kernel(r, tag, directory=None, name=None, nw=None):
     """A small synthetic kernel written to a temporary file: Langmuir-like isotherms, one per pore width."""
-    nw = r.randint(5, 9)
+    nw = nw or (r.randint(5, 9) if r.random() < 0.7 else r.choice([2, 3, 4]))  # (also kernels with no more pore widths than the spline order)
     wmax = r.choice([5.0, 5.0, 25.0, 120.0])  # (kernels reaching into the mesopores: widths of 10 nm and more, 100 nm and more)
     widths = sorted(round(gen.log_uniform(r, 0.5, wmax), 2) for _ in range(nw))
     widths = [round(w + 0.01 * i, 2) for i, w in enumerate(widths)]
@@ -158,7 +162,7 @@ def _run_fit(case, ctx):
     import pygaps
     from pygaps.characterisation import psd_kernel as pk
     r = gen.rng(case["seed"], "fit")
-    path = shipped_kernel_path() if case["kernel"] == "shipped" else user_kernel(r, str(case["seed"]))
+    path = shipped_kernel_path() if case["kernel"] == "shipped" else user_kernel(r, str(case["seed"]), nw=case.get("nw"))
     k = load_kernel(path)
     nw = len(k["widths"])
     w = _weights(r, nw, case["weights"])
@@ -248,6 +252,12 @@ def _run_limits(case, ctx):
         i0 = r.randint(3, len(p) - 12)
         i1 = i0 + narrow - 1
     lims = (float((p[i0 - 1] + p[i0]) / 2), float((p[i1] + p[i1 + 1]) / 2))
+    if case["seed"] % 2 and not narrow:
+        # the measurement went beyond the kernel's pressure range; the limits leave those points out
+        extra_p = numpy.array([min(0.9995, k["pmax"] * 1.0015), 0.9999])
+        p = numpy.concatenate([p, extra_p])
+        n = numpy.concatenate([n, [n[-1] * 1.2, n[-1] * 1.5]])
+        ctx.count("limits", "points-beyond-the-kernel-range-outside-the-limits")
     kw = dict(material="verif-c18", adsorbate="nitrogen", pressure_mode="relative", pressure_unit=None, **dict({kk: v for kk, v in gen.DEFAULT_UNITS.items() if not kk.startswith("pressure")}, **gen.temp_kw(77.355)))
     order = r.randint(0, 3)
     a = _call(pk.psd_dft, pygaps.PointIsotherm(pressure=list(p), loading=list(n), branch="ads", **kw), p_limits=lims, bspline_order=order)
@@ -265,6 +275,12 @@ def _run_limits(case, ctx):
             return
         if a[0] != "ok":
             return
+    if c[0] == "ok" and (a[0] != "ok" or b[0] != "ok"):
+        # the points inside the limits can be fitted on their own: what lies outside may not decide whether there is a result
+        bad = a if a[0] != "ok" else b
+        ctx.violation("psd_dft/points-outside-limits-influence-result", "the analysis with limits is refused although the points inside the limits can be fitted", exc=bad[1], limits=lims, p_last=float(p[-1]),
+                      kernel_pmax=k["pmax"])
+        return
     if a[0] != "ok" or b[0] != "ok" or c[0] != "ok":
         ctx.count("refusals", "limits-case")
         return
